@@ -28,7 +28,8 @@ Specs == << [kind |-> "list", items |-> <<A(T_ID)>>],
             [kind |-> "dict", seqform |-> "tuple", map |-> <<<<T_gene, <<A(T_Name), A(T_ID)>>>>, <<T_exon, <<A(T_ID)>>>>>>],
             [kind |-> "list", seqform |-> "tuple", items |-> <<A(T_Name), A(T_ID)>>],
             [kind |-> "list", seqform |-> "tuple", items |-> <<A(T_ID)>>],
-            [kind |-> "list", items |-> <<[t |-> "call", fn |-> "auto_colon"]>>] >>
+            [kind |-> "list", items |-> <<[t |-> "call", fn |-> "auto_colon"]>>],
+            [kind |-> "list", items |-> <<[t |-> "field", name |-> "chrom"]>>] >>                       \* ':chrom:' - the Feature's alias of seqid
 
 VARIABLES fs, sp, res, done
 OneFeat == {Feat(ft, i, n) : ft \in {T_gene, T_exon}, i \in AttrChoices, n \in {<<>>, <<VA>>, <<VA, VB>>}}
